@@ -24,7 +24,10 @@ RULE = ("history: a first 'create' followed by up to 14 (quick) / 26 (thorough) 
         "revert_scaling, shuffle, move_boundaries_to_front, split_labels, split_pieces(p incl. 0, 1, out of range), "
         "split_without_labels, remove_samples (distinct in-range indices / one out-of-range index among them), "
         "concatenate (any two pool members incl. itself), copy, remove_labels}; operands are pool members chosen by a drawn index "
-        "(3 of 4 draws skip empty members; revert prefers scaled members). "
+        "(3 of 4 draws skip empty members; revert prefers scaled members; -1/-2 address the newest members). "
+        "scale_range carries a flag 'repeat the range last applied to this set or its parent' (drawn 1/2) and is followed in 4 of 7 "
+        "draws by remove_samples of rows holding a per-dimension extreme / split_pieces / split_labels and a non-overriding "
+        "scale_range to the same range on the remainder / a piece (these follow-ups may exceed the operation count by 2 each). "
         "After every operation every live DataSet is matched against its model entry. Non-trivial = at least one "
         "revert_scaling was executed on a non-empty scaled DataSet whose lineage, while scaled, went through a "
         "sample-moving operation (shuffle / move_boundaries_to_front / split_* / remove_samples / concatenate / "
@@ -265,6 +268,8 @@ class Machine:
         if not self.pool:
             return None
         n = len(self.pool)
+        if k < 0:                       # -1 / -2: the most recently added members (e.g. the pieces of the last split)
+            return self.pool[max(k, -n)]
         slot = (k % 12) % n
         if k >= 36:
             return self.pool[slot]
@@ -467,11 +472,14 @@ class Machine:
 
     def op_scale_range(self, op):
         np = self.np
-        _, k, lo, hi, override = op
+        _, k, lo, hi, override = op[:5]
         e = self.pick(k)
         if e is None:
             return
         m = e.m
+        if len(op) > 5 and op[5] and m.scaled and m.rng is not None and m.rng[0] == "fixed":
+            lo, hi = m.rng[1], m.rng[2]         # repeat exactly the range last applied to this set / its parent
+        same_range = m.scaled and m.rng is not None and m.rng[0] == "fixed" and (m.rng[1], m.rng[2]) == (lo, hi)
         call = lambda: e.obj.scale_range((lo, hi), override_scaling=bool(override))
         if m.n == 0:
             return self._empty_op(e, "scale_range", call)
@@ -485,6 +493,10 @@ class Machine:
             self.out.cls("skipped-magnitude")
             return
         new = (m.cur - mn) * s + lo
+        if same_range:
+            self.out.cls("same-range-rescale")
+            if not override and float(np.max(np.abs(new - m.cur))) > 1e3 * m.tol():
+                self.out.cls("same-range-rescale-after-losing-an-extreme")
         self.out.cls("scale_range-" + ("override" if override and m.scaled else ("first" if not m.scaled else "non-overriding")))
         if np.any(ext == 0):
             self.out.cls("scale_range-constant-dimension")
@@ -688,13 +700,20 @@ class Machine:
 
     def op_remove_samples(self, op):
         np = self.np
-        _, k, sel, bad_kind = op
+        _, k, sel, bad_kind = op[:4]
         e = self.pick(k)
         if e is None:
             return
         m = e.m
         n = m.n
         idx = sorted(set(s % n for s in sel)) if n else []
+        if len(op) > 4 and op[4] == "extreme" and n and sel:
+            # choose among the rows that hold a per-dimension minimum or maximum (read from the object: an input decision)
+            X, _ = obs_rows(np, e.obj)
+            if len(X) == n:
+                ext = np.nonzero(np.any((X == X.min(axis=0)) | (X == X.max(axis=0)), axis=1))[0].tolist()
+                idx = sorted(set(int(ext[s % len(ext)]) for s in sel))
+                self.out.cls("remove-extreme-rows")
         if bad_kind:
             badi = {"minus1": -1, "len": n, "len+1": n + 1, "len+5": n + 5, "minus-len-1": -n - 1}[bad_kind]
             pos = (sel[0] if sel else 0) % (len(idx) + 1)
@@ -998,7 +1017,19 @@ def history_strategy(tier):
                 ops.append(draw(_create()))
             elif k == "scale_range":
                 lo, hi = draw(st.sampled_from(RANGES))
-                ops.append([k, draw(idx), lo, hi, draw(st.sampled_from([0, 0, 1]))])
+                target = draw(idx)
+                ops.append([k, target, lo, hi, draw(st.sampled_from([0, 0, 1])), draw(st.sampled_from([0, 1]))])
+                # follow-up by construction: lose rows (preferably ones holding an extreme), then rescale to the SAME range
+                follow = draw(st.sampled_from(["", "", "", "remove", "remove", "split_pieces", "split_labels"]))
+                if follow == "remove":
+                    ops.append(["remove_samples", target, draw(st.lists(st.integers(0, 23), min_size=1, max_size=2)), "", "extreme"])
+                    ops.append([k, target, lo, hi, 0, 1])
+                elif follow == "split_pieces":
+                    ops.append([follow, target, draw(st.sampled_from([0.25, 0.4, 0.5, 0.75]))])
+                    ops.append([k, draw(st.sampled_from([-1, -2])), lo, hi, 0, 1])
+                elif follow == "split_labels":
+                    ops.append([follow, target])
+                    ops.append([k, draw(st.sampled_from([-1, -2])), lo, hi, 0, 1])
             elif k == "scale_factor":
                 ops.append([k, draw(idx), draw(scal_or_vec(FACTORS)), draw(st.sampled_from([0, 0, 1]))])
             elif k == "shift_value":
